@@ -63,6 +63,61 @@ theorem swizzle_comp (p1 p2 : List Nat) (t : FT.Pts) (h : ∀ i ∈ p2, i < p1.l
   have hlt := h i hi
   simp only [Function.comp, List.getD, List.getElem?_map, List.getElem?_eq_getElem hlt, Option.map_some, Option.getD_some]
 
+/-! ### observers do not interfere
+
+A program over a state with a tensor part `T` (every tensor, fiber, coordinate and value variable) and an observer part `O`
+(the `Metrics`/`Traffic`/canvas objects, trace sets, `*_iter_num`, `timestamps`, the `metrics` dictionary).  A *tensor statement*
+reads and writes `T` only; an *observer statement* may read both parts and writes `O` only; a loop runs its body a number of
+times that depends on `T` only (coordinates come from fibers).  Erasing every observer statement leaves the tensor part of the
+final state unchanged - whatever the observer statements do, wherever they stand, however often the loops run.  This is what
+justifies reading the metrics-mode / spacetime-mode loops through their observer wrappers when they are compared with the model
+nests of C01-C04 (`HF.loopSkeleton`).  Which statements are observers (their classification) is trusted, not proved. -/
+
+inductive Prog (T O : Type) where
+  | skip
+  | tensor (h : T → T)
+  | observer (g : T → O → O)
+  | seq (p q : Prog T O)
+  | loop (n : T → Nat) (body : Prog T O)
+
+def iter {α : Type} (f : α → α) : Nat → α → α
+  | 0, a => a
+  | k + 1, a => iter f k (f a)
+
+def Prog.run {T O : Type} : Prog T O → T × O → T × O
+  | .skip, s => s
+  | .tensor h, s => (h s.1, s.2)
+  | .observer g, s => (s.1, g s.1 s.2)
+  | .seq p q, s => q.run (p.run s)
+  | .loop n body, s => iter body.run (n s.1) s
+
+def Prog.erase {T O : Type} : Prog T O → Prog T O
+  | .skip => .skip
+  | .tensor h => .tensor h
+  | .observer _ => .skip
+  | .seq p q => .seq p.erase q.erase
+  | .loop n body => .loop n body.erase
+
+theorem iter_fst {T O : Type} (f g : T × O → T × O) (h : ∀ s s', s.1 = s'.1 → (f s).1 = (g s').1) :
+    ∀ (k : Nat) (s s' : T × O), s.1 = s'.1 → (iter f k s).1 = (iter g k s').1
+  | 0, _, _, e => e
+  | k + 1, s, s', e => iter_fst f g h k (f s) (g s') (h s s' e)
+
+/-- **erasing the observer statements does not change any tensor**, from any observer state -/
+theorem erase_observers {T O : Type} : ∀ (p : Prog T O) (s s' : T × O), s.1 = s'.1 → (p.run s).1 = (p.erase.run s').1
+  | .skip, _, _, e => e
+  | .tensor h, s, s', e => by simp [Prog.run, Prog.erase, e]
+  | .observer _, _, _, e => e
+  | .seq p q, s, s', e => erase_observers q _ _ (erase_observers p s s' e)
+  | .loop n body, s, s', e => by
+    simp only [Prog.run, Prog.erase]
+    rw [e]
+    exact iter_fst _ _ (erase_observers body) (n s'.1) s s' e
+
+/-- non-vacuity: a loop whose body counts iterations in the observer part -/
+example : ((Prog.loop (fun t : Nat => t) (.seq (.observer fun _ o => o + 1) (.tensor fun t => t + 2))).run (3, 0)).1 =
+    ((Prog.loop (fun t : Nat => t) (.seq (.observer fun _ o => o + 1) (.tensor fun t => t + 2))).erase.run (3, 7)).1 := by decide
+
 /-- non-vacuity: leader `b` moved in front of `a` -/
 example : coiterT [⟨[true], [([1], 2), ([3], 4)]⟩, ⟨[true], [([3], 5), ([7], 1)]⟩] = some [3] ∧
     coiterT [⟨[true], [([3], 5), ([7], 1)]⟩, ⟨[true], [([1], 2), ([3], 4)]⟩] = some [3] := by decide
